@@ -32,8 +32,8 @@ func (c *c10Conn) SetDeadline(t time.Time) error      { return nil }
 func (c *c10Conn) SetReadDeadline(t time.Time) error  { return nil }
 func (c *c10Conn) SetWriteDeadline(t time.Time) error { return nil }
 
-// protocol stub with the contract of tars.Protocol: records the packet type in the context at
-// the end of Invoke, takes `dur` of (virtual) time
+// protocol stub with the contract of tars.Protocol: records the packet type in the context
+// before running the implementation, which takes `dur` of (virtual) time
 type c10Proto struct {
 	oneway bool
 	dur    time.Duration
@@ -42,14 +42,16 @@ type c10Proto struct {
 
 func (p *c10Proto) Invoke(ctx context.Context, pkg []byte) []byte {
 	p.calls++
-	if p.dur > 0 {
-		time.Sleep(p.dur)
-	}
+	// contract of tars.Protocol.Invoke (proved by VerifC10Invoke): the packet type is in the
+	// context before the implementation runs
 	pt := int8(0)
 	if p.oneway {
 		pt = 1
 	}
 	current.SetPacketTypeFromContext(ctx, pt)
+	if p.dur > 0 {
+		time.Sleep(p.dur)
+	}
 	return []byte{0, 0, 0, 5, 'N'}
 }
 func (p *c10Proto) ParsePackage(buff []byte) (int, int) { return 0, PackageLess }
